@@ -43,3 +43,6 @@ func (db *DB) VerifReadValuePtr(encoded []byte) ([]byte, error) {
 	}
 	return append([]byte{}, val...), nil
 }
+
+// VerifCommitQueueLen returns the number of commit requests waiting in the commit queue.
+func (db *DB) VerifCommitQueueLen() int64 { return atomic.LoadInt64(&db.commitQueue.queueLen) }
